@@ -91,6 +91,11 @@ func vfC03Gen(rt *rapid.T) vfC03Case {
 				nq = 1
 			}
 			for j := 0; j < nq; j++ {
+				if j > 0 && rapid.IntRange(0, 2).Draw(rt, "repeat_query") == 0 {
+					// the same string twice: each occurrence is a query of its own
+					op.Qs = append(op.Qs, op.Qs[rapid.IntRange(0, j-1).Draw(rt, "repeat_of")])
+					continue
+				}
 				op.Qs = append(op.Qs, vfGenText(rt, "query", 3))
 			}
 			op.K = rapid.IntRange(-2, len(live)+2).Draw(rt, "k")
